@@ -12,6 +12,7 @@
 (*   [t |-> "sl", arr, e]         slice (arr = FALSE) or array of leaves   *)
 (*                                or of nested slices                      *)
 (*   [t |-> "mp", ks, vs]         map[string]int: keys ks, values vs       *)
+(*   [t |-> "mpa", ks, e]         map[string]any: keys ks, values e (leaves or nil) *)
 (*   [t |-> "st", a, p, c]        struct{A int; p string (unexported); C string} *)
 (***************************************************************************)
 EXTENDS Trees
@@ -23,6 +24,7 @@ Canon(n) ==
     [] n.t = "ptr"  -> Canon(n.x)          \* documented: pointers are dereferenced at any depth before comparing
     [] n.t = "sl"   -> [t |-> "sl", arr |-> n.arr, e |-> [i \in 1..Len(n.e) |-> Canon(n.e[i])]]
     [] n.t = "mp"   -> [t |-> "mp", kv |-> {<<n.ks[i], n.vs[i]>> : i \in 1..Len(n.ks)}]      \* a map is unordered
+    [] n.t = "mpa"  -> [t |-> "mpa", kv |-> {<<n.ks[i], Canon(n.e[i])>> : i \in 1..Len(n.ks)}]
     [] n.t = "st"   -> [t |-> "st", a |-> n.a, c |-> n.c]                                  \* the unexported field is skipped
     [] n.t = "stk"  -> [t |-> "stk", k |-> n.k, cap |-> n.cap, e |-> [i \in 1..Len(n.e) |-> Canon(n.e[i])]]
     [] n.t = "cnd"  -> [t |-> "cnd", kw |-> n.kw, op |-> n.op, ex |-> Canon(n.ex)]
@@ -43,6 +45,9 @@ Mutants(n) ==
                        \cup (IF Len(n.e) > 0 THEN {[n EXCEPT !.e = SubSeq(n.e, 1, Len(n.e) - 1)]} ELSE {})   \* one fewer
                        \cup (IF Len(n.e) > 0 THEN {[n EXCEPT !.e = Append(n.e, n.e[1])]} ELSE {})            \* one more
     [] n.t = "mp"   -> UNION {{[n EXCEPT !.vs[i] = Bump(n.vs[i])], [n EXCEPT !.ks[i] = Bump(n.ks[i])]} : i \in 1..Len(n.ks)}
+    [] n.t = "mpa"  -> UNION {   {[n EXCEPT !.e[i] = m] : m \in Mutants(n.e[i])}
+                              \cup {[n EXCEPT !.e[i] = IF n.e[i].t = "nil" THEN TrLeaf(<<"q">>) ELSE TrNil]}   \* nil <-> a real value
+                              \cup {[n EXCEPT !.ks[i] = Bump(n.ks[i])]} : i \in 1..Len(n.ks)}
     [] n.t = "st"   -> {[n EXCEPT !.a = Bump(n.a)], [n EXCEPT !.c = Bump(n.c)]}
     [] n.t = "stk"  ->
          UNION {{[n EXCEPT !.e[i] = m] : m \in Mutants(n.e[i])} : i \in 1..Len(n.e)}
